@@ -82,6 +82,34 @@ Proof.
     pose proof (pow2_pos (List.length rest)). apply (down_spec rest Hl); [lia | reflexivity |].
     split; [tauto |]. rewrite Z.pow_add_r by lia. tauto.
 Qed.
+
+(* the loop-faithful model returns exactly where the total companion does: the fuel is never used up for 2 <= p *)
+Lemma up_o f : forall pows puiss, plist pows -> puiss = p ^ (2 ^ Z.of_nat (List.length pows)) -> puiss <= a ->
+  a < 2 ^ (2 ^ (Z.of_nat (List.length pows) + Z.of_nat f + 1)) ->
+  logp_up_o f a puiss pows = Some (logp_up f a puiss pows).
+Proof.
+  induction f as [| f IH]; intros pows puiss Hl Hpu Hle Hb.
+  - destruct (up_spec 0 pows puiss Hl Hpu Hle Hb) as (q & rest & E & _ & Hq). cbn [logp_up] in E. inversion E; subst q rest.
+    cbn [logp_up_o logp_up]; cbv zeta. rewrite opMulEq_I_ok, opLe_I_ok. destruct (Z.leb_spec (puiss * puiss) a); [lia | reflexivity].
+  - cbn [logp_up_o logp_up]; cbv zeta. rewrite opMulEq_I_ok, opLe_I_ok. destruct (Z.leb_spec (puiss * puiss) a); [| reflexivity].
+    apply IH.
+    + subst puiss. constructor. exact Hl.
+    + cbn [List.length]. rewrite Nat2Z.inj_succ, Z.pow_succ_r by lia. subst puiss. pose proof (pow2_pos (List.length pows)).
+      rewrite <- Z.pow_add_r by lia. f_equal. lia.
+    + assumption.
+    + cbn [List.length]. rewrite Nat2Z.inj_succ in *. replace (Z.succ (Z.of_nat (List.length pows)) + Z.of_nat f + 1) with (Z.of_nat (List.length pows) + Z.succ (Z.of_nat f) + 1) by lia. exact Hb.
+Qed.
+Lemma logp_o_ret : 1 <= a -> logp_o a p = Ret (logp a p).
+Proof.
+  intros Ha1. unfold logp_o, logp, ctor_copy. rewrite opLt_I_ok. destruct (Z.ltb_spec a p) as [Hlt | Hpa]; [reflexivity |].
+  rewrite (up_o (Z.to_nat (Z.log2 a)) [] p pnil).
+  - destruct (logp_up (Z.to_nat (Z.log2 a)) a p []); reflexivity.
+  - cbn [List.length]. change (2 ^ Z.of_nat 0) with 1. rewrite Z.pow_1_r. reflexivity.
+  - exact Hpa.
+  - cbn [List.length]. pose proof (Z.log2_nonneg a). rewrite Z2Nat.id by lia. change (Z.of_nat 0) with 0. rewrite Z.add_0_l.
+    pose proof (Z.log2_spec a ltac:(lia)) as [_ Hl]. eapply Z.lt_le_trans; [exact Hl |].
+    apply Z.pow_le_mono_r; [lia |]. pose proof (Z.pow_gt_lin_r 2 (Z.log2 a + 1) ltac:(lia) ltac:(lia)). lia.
+Qed.
 End Logp.
 
 (* ================================================================ pp *)
@@ -222,4 +250,95 @@ Proof.
   repeat split; try assumption.
   - intros d; apply pp_greatest.
   - apply pp_cofactor.
+Qed.
+
+(* ================================================================ the loops as they are: where they return, where they do not *)
+(* a base whose square is itself (0, 1; -1 after one squaring) never leaves the do-while loop of logp, whatever the fuel *)
+Lemma logp_up_o_stuck f : forall a puiss pows, puiss * puiss = puiss -> puiss <= a -> logp_up_o f a puiss pows = None.
+Proof.
+  induction f as [| f IH]; intros a puiss pows Hsq Hle; cbn [logp_up_o]; cbv zeta; rewrite opMulEq_I_ok, opLe_I_ok, Hsq;
+    destruct (Z.leb_spec puiss a); try lia; [reflexivity |].
+  apply IH; assumption.
+Qed.
+Lemma logp_no_return a p : ((p = 0 \/ p = 1) /\ p <= a) \/ (p = -1 /\ 1 <= a) -> forall f, logp_up_o f a (ctor_copy p) nil = None.
+Proof.
+  intros H f. unfold ctor_copy. destruct H as [[Hp Ha] | [-> Ha]].
+  - apply logp_up_o_stuck; [destruct Hp; subst; reflexivity | exact Ha].
+  - destruct f as [| f]; cbn [logp_up_o]; cbv zeta; rewrite opMulEq_I_ok, opLe_I_ok; change (-1 * -1) with 1;
+      destruct (Z.leb_spec 1 a); try lia; [reflexivity |].
+    apply logp_up_o_stuck; [reflexivity | exact Ha].
+Qed.
+Lemma logp_o_no_return a p : ((p = 0 \/ p = 1) /\ p <= a) \/ (p = -1 /\ 1 <= a) -> logp_o a p = NoReturn.
+Proof.
+  intros H. unfold logp_o. rewrite opLt_I_ok. destruct (Z.ltb_spec a p) as [Hlt | _]; [lia |].
+  rewrite (logp_no_return a p H). reflexivity.
+Qed.
+
+Lemma pp_loop_o_ret : forall f U V, U <> 0 -> (V | U) -> 0 <= V -> Z.abs U < 2 ^ Z.of_nat f ->
+  pp_loop_o (S f) U V = Ret (pp_loop f U V).
+Proof.
+  induction f as [| f IH]; intros U V HU HVU HV Hb.
+  - change (2 ^ Z.of_nat 0) with 1 in Hb. lia.
+  - change (pp_loop_o (S (S f)) U V) with
+      (if opNe_I V Integer_one then let U1 := Z.quot U V in pp_loop_o (S f) U1 (gcd_v U1 V) else Ret U).
+    cbn [pp_loop]. rewrite opNe_I_ok. unfold Integer_one. destruct (Z.eqb_spec V 1) as [-> | HV1]; cbn [negb]; [reflexivity |].
+    cbv zeta. rewrite !gcd_v_ok. destruct HVU as [k Hk].
+    assert (V <> 0) by (intros ->; lia). assert (2 <= V) by lia.
+    assert (Eq : Z.quot U V = k) by (subst U; apply Z.quot_mul; assumption). rewrite Eq.
+    assert (k <> 0) by (intros ->; lia).
+    apply IH; [assumption | apply Z.gcd_divide_l | apply Z.gcd_nonneg |].
+    rewrite Nat2Z.inj_succ, Z.pow_succ_r in Hb by lia. subst U. rewrite Z.abs_mul in Hb. nia.
+Qed.
+Lemma pp_o_ret P Q : P <> 0 -> pp_o P Q = Ret (pp P Q).
+Proof.
+  intros HP. unfold pp_o, pp, pp_fuel, ctor_copy. rewrite gcd_v_ok. apply pp_loop_o_ret.
+  - exact HP.
+  - apply Z.gcd_divide_l.
+  - apply Z.gcd_nonneg.
+  - rewrite Nat2Z.inj_succ, Z2Nat.id by apply Z.log2_nonneg. apply Z.log2_spec. lia.
+Qed.
+(* U = 0 with V <> 1 is a fixed point of the loop of pp: no fuel is enough *)
+Lemma pp_loop_o_stuck f : forall V, 2 <= V -> pp_loop_o f 0 V = NoReturn.
+Proof.
+  induction f as [| f IH]; intros V HV; [reflexivity |].
+  cbn [pp_loop_o]. rewrite opNe_I_ok. unfold Integer_one. destruct (Z.eqb_spec V 1); [lia |]. cbn [negb]. cbv zeta.
+  rewrite Z.quot_0_l by lia. rewrite gcd_v_ok. rewrite Z.gcd_0_l, Z.abs_eq by lia. apply IH. exact HV.
+Qed.
+Lemma pp_zero_no_return Q : 2 <= Z.abs Q -> forall f, pp_loop_o f (ctor_copy 0) (gcd_v 0 Q) = NoReturn.
+Proof. intros HQ f. unfold ctor_copy. rewrite gcd_v_ok, Z.gcd_0_l. apply pp_loop_o_stuck. exact HQ. Qed.
+
+(* pp as it is in the source: returns for P <> 0, with the value characterised by Pp_exact; does not return for P = 0, |Q| >= 2
+   (whatever the fuel: the finding C01 `pp ... does not return`); the body repaired by frag/C01.fix-5.diff returns 0 there and is
+   the same function elsewhere *)
+Definition Pp_returns : Prop :=
+  (forall P Q, P <> 0 -> exists r, pp_o P Q = Ret r /\ r = pp P Q) /\
+  (forall Q, 2 <= Z.abs Q -> forall f, pp_loop_o f (ctor_copy 0) (gcd_v 0 Q) = NoReturn) /\
+  (forall Q, pp_fixed_o 0 Q = Ret 0) /\ (forall P Q, P <> 0 -> pp_fixed_o P Q = pp_o P Q).
+Lemma pp_returns : Pp_returns.
+Proof.
+  unfold Pp_returns; repeat apply conj.
+  - intros P Q HP. exists (pp P Q). split; [apply pp_o_ret; exact HP | reflexivity].
+  - exact pp_zero_no_return.
+  - reflexivity.
+  - intros P Q HP. unfold pp_fixed_o, pp_o, ctor_copy, isZero_I, mpz_cmp_ui. cbv zeta.
+    destruct (Z.eqb_spec (Z.sgn (P - 0)) 0) as [E | _]; [| reflexivity]. destruct P; cbn in E; try discriminate; contradiction.
+Qed.
+(* logp as it is in the source: for 2 <= p and 1 <= a it returns the integer logarithm; for a < p it returns 0; for p in {0, 1} (p <= a)
+   and p = -1 (1 <= a) it does not return, whatever the fuel (the finding C01 `logp ... does not return`); the body repaired by
+   frag/C01.fix-6.diff throws for every p < 2 and is the same function for p >= 2 *)
+Definition Logp_returns : Prop :=
+  (forall a p, 2 <= p -> 1 <= a -> exists r, logp_o a p = Ret r /\ 0 <= r /\ p ^ r <= a < p ^ (r + 1)) /\
+  (forall a p, a < p -> logp_o a p = Ret 0) /\
+  (forall a p, ((p = 0 \/ p = 1) /\ p <= a) \/ (p = -1 /\ 1 <= a) -> forall f, logp_up_o f a (ctor_copy p) nil = None) /\
+  (forall a p, p < 2 -> logp_fixed_o a p = Throws) /\ (forall a p, 2 <= p -> logp_fixed_o a p = logp_o a p).
+Lemma logp_returns : Logp_returns.
+Proof.
+  unfold Logp_returns; repeat apply conj.
+  - intros a p Hp Ha. exists (logp a p). split; [apply logp_o_ret; assumption | apply logp_spec; assumption].
+  - intros a p H. unfold logp_o. rewrite opLt_I_ok. destruct (Z.ltb_spec a p); [reflexivity | lia].
+  - exact logp_no_return.
+  - intros a p H. unfold logp_fixed_o. destruct oplt_exact as (_ & Hi & _). rewrite Hi by (unfold in_i32, H32; lia).
+    destruct (Z.ltb_spec p 2); [reflexivity | lia].
+  - intros a p H. unfold logp_fixed_o. destruct oplt_exact as (_ & Hi & _). rewrite Hi by (unfold in_i32, H32; lia).
+    destruct (Z.ltb_spec p 2); [lia | reflexivity].
 Qed.
